@@ -31,6 +31,25 @@ def run(ctx, variants=(("verif", "c04"), ("verif,unsafe", "c04u"))):
     res = ctx.prove(MODULE)
     if not res["ok"]:
         broken.append({"kind": "obligation", "theorems": res["failed"], "detail": res["reasons"][:10]})
+    thms = list(ctx.coverage.get("theorems", []))
+    # the hand-written Conn codec: size()/writeTo() of every root-package request type, re-translated and re-proved
+    okl, logl = ctx.extract("legacy", ["lean/KafkaVerif/Gen/Legacy.lean"])
+    if not okl:
+        broken.append({"kind": "obligation", "name": "translator go/extract legacy", "detail": logl[-1500:]})
+    resl = ctx.prove("KafkaVerif.Gen.Legacy", thorough_leanchecker=False)
+    if not resl["ok"]:
+        broken.append({"kind": "obligation", "name": "legacy_size (announced size = bytes written) no longer proves for the Conn codec",
+                       "theorems": resl["failed"], "detail": resl["reasons"][:10]})
+    ctx.coverage["theorems"] = thms + list(ctx.coverage.get("theorems", []))
+    try:
+        gl = open(os.path.join(os.path.dirname(os.path.dirname(os.path.abspath(__file__))), "lean", "KafkaVerif", "Gen", "Legacy.lean")).read()
+        import re as _re
+        m = _re.search(r"def untranslated : List \(String × String\) := \[(.*)\]", gl)
+        ctx.coverage["legacy_untranslated"] = _re.findall(r'\("([A-Za-z0-9]+)", "((?:[^"\\]|\\.)*)"\)', m.group(1)) if m else []
+        m = _re.search(r"def emitted : List String := \[(.*)\]", gl)
+        ctx.coverage["legacy_emitted_types"] = _re.findall(r'"([A-Za-z0-9?]+)"', m.group(1)) if m else []
+    except Exception as e:
+        ctx.notes.append("legacy summary: %s" % e)
     dis = []
     orc, olog = ctx.oracle_build("oracle_c04")
     if orc is None:
@@ -61,7 +80,20 @@ def run(ctx, variants=(("verif", "c04"), ("verif,unsafe", "c04u"))):
         dis += ctx.correspond([l for l in lines2 if "\t" in l], orc, "reference frames -> protocol decoder (%s)" % tags)
         ctx.coverage.setdefault("audited_frames", 0)
         ctx.coverage["audited_frames"] += sum(1 for f in frames if f[3])
-    ctx.coverage["rule"] = ("every type passed to protocol.Register/RegisterOverride (80 message types) x every version of its range x values: "
+    # request emission of the hand-written Conn codec: real Conn methods over net.Pipe, strictly framing fake broker
+    if orc is not None:
+        drvc, dlogc = ctx.go_build("./cmd/c04conn", "c04conn", tags="verif")
+        if drvc is None:
+            broken.append({"kind": "obligation", "name": "driver c04conn could not be built", "detail": dlogc[-1500:]})
+        else:
+            linesc, rcc, errc = ctx.run_driver(drvc, [])
+            if rcc != 0:
+                broken.append({"kind": "obligation", "name": "driver c04conn crashed", "detail": errc[-1500:]})
+            dis += ctx.correspond([l for l in linesc if "\t" in l], orc, "Conn request emission (write.go/sizeof.go, conn.go writeRequest) <-> golden schema / Kafka wire spec")
+    ctx.coverage["rule"] = ("CONN: Conn.CreateTopics (v0-v2, replica assignments and config entries), DeleteTopics (v0,v1), ReadPartitions (metadata v1,v6), "
+                            "ReadLastOffset (listoffsets v1) and the group/sasl operations of VerifConnOp captured by a fake broker that frames strictly by the size prefix; "
+                            "op connreq: capture must parse under the golden schema, re-encode to exactly the captured bytes and match the argument values. REFLECTION CODEC: "
+                            "every type passed to protocol.Register/RegisterOverride (80 message types) x every version of its range x values: "
                             "zero value, small full value, random (nil/empty/1-3 element slices nested, strings empty/1/127-129/random bytes, "
                             "thorough: 16383/16384/32767 bytes; ints min/max/-1/0/random; float64 bit patterns; nil/empty/random []byte; "
                             "RecordSets v1/v2 with 1-2 records); ops enc (real encoder vs model, monitor = reference encoder over golden schema), "
